@@ -1,6 +1,7 @@
 import PySMT.Core.Eval
 import PySMT.Core.TypeOf
 import PySMT.Core.FreeVars
+import PySMT.Spec.Analyses
 /-!
 # Coincidence lemma, sort preservation and small general lemmas about `eval`
 
@@ -8,7 +9,8 @@ Shared by C01/C05/C10/C12 (owner: C12).  Everything here is about the *reference
 `PySMT/Core/Eval.lean`; nothing models pySMT code.
 
 Contents
-* `Term.fnames`, `Term.symOk`, `fv_node_*`, `mem_fv_child`        — structure of `Term.fv`
+* `fv_node_*`, `mem_fv_child`, `fnames_subset_fv`                  — structure of `Term.fv` (`Term.fnames`,
+                                                                      `Term.symOk` are defined in `Spec/Analyses.lean`)
 * `Interp.withSym`, `Interp.quant_congr`, `Interp.quant_congr_fun` — congruence of quantifier evaluation
 * `evalOp_congr`                                                   — `evalOp` reads `I` only through `div0r/div0i`
 * `coincidence_gen`, `coincidence`, `div0_coincidence`             — the value (and the division-by-zero proviso)
@@ -22,29 +24,6 @@ Contents
 namespace PySMT
 
 /-! ## structure of `fv` -/
-
-/-- function symbols applied somewhere in the term (binders never remove them) -/
-def Term.fnames : Term → List Sym
-  | .node op args p =>
-    let sub := (args.map Term.fnames).flatten
-    match op, p with
-    | .symbol, .sym _ => []
-    | .function, .sym s => s :: sub
-    | _, _ => sub
-
-/-- The three shape facts every term built by pySMT's `FormulaManager` satisfies and that make
-"free symbols" a meaningful notion on raw trees: bound variables are not function symbols
-(`params = []`), applied symbols are (`params ≠ []`; `Function(f, [])` returns the symbol `f`),
-symbol nodes are leaves. -/
-def Term.symOk : Term → Bool
-  | .node op args p =>
-    (args.map Term.symOk).all id &&
-    (match op, p with
-     | .symbol, _ => args.isEmpty
-     | .function, .sym s => !s.params.isEmpty
-     | .forall_, .qvars vs => vs.all (fun v => v.params.isEmpty)
-     | .exists_, .qvars vs => vs.all (fun v => v.params.isEmpty)
-     | _, _ => true)
 
 theorem fv_node (op : Op) (args : List Term) (p : Payload) : (Term.node op args p).fv =
     (match op, p with
@@ -60,7 +39,7 @@ theorem fnames_node (op : Op) (args : List Term) (p : Payload) : (Term.node op a
     | .symbol, .sym _ => []
     | .function, .sym s => s :: (args.map Term.fnames).flatten
     | _, _ => (args.map Term.fnames).flatten) := by
-  rw [Term.fnames.eq_def]
+  rw [Term.fnames.eq_def]; try rfl
 
 theorem symOk_node (op : Op) (args : List Term) (p : Payload) : (Term.node op args p).symOk =
     ((args.map Term.symOk).all id &&
@@ -70,7 +49,7 @@ theorem symOk_node (op : Op) (args : List Term) (p : Payload) : (Term.node op ar
      | .forall_, .qvars vs => vs.all (fun v => v.params.isEmpty)
      | .exists_, .qvars vs => vs.all (fun v => v.params.isEmpty)
      | _, _ => true)) := by
-  rw [Term.symOk.eq_def]
+  rw [Term.symOk.eq_def]; try rfl
 
 theorem Term.symOk_child {op args p} (h : (Term.node op args p).symOk = true) :
     ∀ a ∈ args, a.symOk = true := by
